@@ -40,7 +40,7 @@ def cfg(heads: str, alpha: str, n: int, *, faithful: bool = False, invariants=IN
 
 class Buckets:
     """Streams the records of one TLC shard into NB files, balanced by the number of concrete expansions."""
-    WEIGHT = {'L': 4, '+': 4}
+    WEIGHT = {'L': 4, '+': 4, 'x': 2}
 
     def __init__(self, tag: str, shard: int):
         d = core.subdir(f'c13-records-{tag}')
@@ -220,7 +220,7 @@ def run(ctx: core.Ctx) -> None:
     ctx.level = 'exploration'
     n_full = 4 if quick else 5
     n_ctx = 3 if quick else 4
-    ctx.rule = (f'Inputs = every string over the 27-character alphabet (A b e t 1 _ space newline = ( ) [ ] {{ }} < > ` # \' + - * / . , é) '
+    ctx.rule = (f'Inputs = every string over the 28-character alphabet (A b e t 1 _ space newline = ( ) [ ] {{ }} < > ` # \' + - * / . , é backslash) '
                 f'of length <= {n_full}: TLC enumerates every class string over the 21 character classes (SplitterMC, plain slice) and the '
                 f'adapter takes the full product over the members of each class. Context slices: 8 fixed heads (second statement, open '
                 f'bracket, open/closable fence, fence inside brackets, indented statement) followed by every tail of length <= {n_ctx} over 12 classes. '
@@ -272,7 +272,7 @@ def run(ctx: core.Ctx) -> None:
     scc.replay(ctx, vrecs, checks=['c01'], namemaps=['plain', 'attrnames'], what='vstmt', layouts=['canon'])
 
     ctx.exhaustive = True
-    ctx.extra['exhaustive_bound'] = (f'all {sum(27 ** i for i in range(n_full + 1))} strings of length <= {n_full} over the 27-character alphabet; '
+    ctx.extra['exhaustive_bound'] = (f'all {sum(28 ** i for i in range(n_full + 1))} strings of length <= {n_full} over the 28-character alphabet; '
                                      f'context slices exhaustive for tails <= {n_ctx}; fuzzing is sampled')
     ctx.assumptions += [
         'expansion table of harness/replay_splitter.py (class code -> members) is the alphabet the property names; fixed heads use the first member',
